@@ -6,11 +6,12 @@ import subprocess
 import sys
 
 HERE = os.path.dirname(os.path.abspath(__file__))
-repo, coq = sys.argv[1], sys.argv[2]
 JOBS = [
     ("py2v_batch.py", "Gen/BatchTasksGen.v"),
 ]
-for script, out in JOBS:
-    r = subprocess.run(["/venv/bin/python", os.path.join(HERE, script), repo, os.path.join(coq, out)])
-    if r.returncode != 0:
-        print(f"regen_all: {script} failed ({r.returncode})", file=sys.stderr)
+if __name__ == "__main__":
+    repo, coq = sys.argv[1], sys.argv[2]
+    for script, out in JOBS:
+        r = subprocess.run(["/venv/bin/python", os.path.join(HERE, script), repo, os.path.join(coq, out)])
+        if r.returncode != 0:
+            print(f"regen_all: {script} failed ({r.returncode})", file=sys.stderr)
